@@ -24,6 +24,8 @@ pub use tree::{VerifCompaction, VersionRef, verif_set_point_hook};
 pub use tree::{VerifParked, verif_select};
 #[cfg(blue_verif)]
 pub use tree::VerifPending;
+#[cfg(blue_verif)]
+pub use tree::verif_set_sst_point_hook;
 pub use tree::{CompactionID, LsmTree, NUM_LEVELS};
 pub use verifier::{LsmVerifier, ManifestVerifier};
 
